@@ -176,6 +176,12 @@ func (s *S) drawStream(c *scen.Ctx, side string, idx int, budget *int) *stream {
 			c.Count("fault.length_over_max", 1)
 		}
 		st.illegal = make([]byte, 4+simrt.Draw(6, "c07.illtail"))
+		if pfx > uint32(M) && pfx <= 12000 && simrt.Draw(2, "c07.illfull") == 1 {
+			// the over-long packet arrives whole (and a little more): being completely buffered
+			// does not make it legal
+			st.illegal = make([]byte, int(pfx)+simrt.Draw(9, "c07.illtail"))
+			c.Count("fault.over_long_packet_completely_buffered", 1)
+		}
 		binary.BigEndian.PutUint32(st.illegal, pfx)
 		for i := 4; i < len(st.illegal); i++ {
 			st.illegal[i] = 0x5a
@@ -255,6 +261,8 @@ func (s *S) Run(c *scen.Ctx) {
 	simnet.Cfg.SmallBufs = simrt.Draw(3, "c07.bufs") == 2
 	if s.maxLen > 1000000 { // 10 MiB frames: keep the transfer cheap
 		simnet.Cfg.Delay, simnet.Cfg.SmallBufs = false, false
+	} else if s.maxLen > 100000 { // 200 KB frames: delivery delays per small segment add up to minutes
+		simnet.Cfg.Delay = false
 	}
 	s.srvGot = map[string][]got{}
 	c.Describe("max_package_length", s.maxLen)
